@@ -1,0 +1,84 @@
+//! Verification hooks. Compiled only with the cargo feature `verif_hooks` (default off).
+//!
+//! Nothing in here changes behaviour unless a test harness installs a controller:
+//! * [`point`] marks a place directly in front of an atomic operation or a system call. Without
+//!   an installed controller it returns immediately.
+//! * [`nix_shim`] forwards `unistd::dup` / `unistd::close` to the real `nix` functions unless a
+//!   replacement was installed.
+//!
+//! Used by the schedule-controlled tests of `UnixFd` (wire/wrapper_types/unixfd.rs).
+
+use std::sync::{Arc, RwLock};
+
+type PointFn = dyn Fn(&'static str) + Send + Sync;
+
+static CONTROLLER: RwLock<Option<Arc<PointFn>>> = RwLock::new(None);
+
+/// Install (or with `None` remove) the callback that [`point`] calls.
+pub fn set_controller(f: Option<Arc<PointFn>>) {
+    *CONTROLLER.write().unwrap_or_else(|e| e.into_inner()) = f;
+}
+
+/// A scheduling point. Calls the installed controller, if any, with the name of the point.
+/// The lock is released before the callback runs, so the callback may block.
+#[inline]
+pub fn point(name: &'static str) {
+    let cb = CONTROLLER
+        .read()
+        .unwrap_or_else(|e| e.into_inner())
+        .as_ref()
+        .cloned();
+    if let Some(cb) = cb {
+        cb(name);
+    }
+}
+
+/// Stand-in for the parts of the `nix` crate that unixfd.rs uses. Imported there as `nix`
+/// (under the feature only), so the existing `nix::unistd::dup` / `nix::unistd::close` calls
+/// go through replaceable functions.
+pub mod nix_shim {
+    pub mod unistd {
+        use std::os::unix::io::RawFd;
+        use std::sync::{Arc, RwLock};
+
+        pub type Errno = ::nix::errno::Errno;
+        type DupFn = dyn Fn(RawFd) -> Result<RawFd, Errno> + Send + Sync;
+        type CloseFn = dyn Fn(RawFd) -> Result<(), Errno> + Send + Sync;
+
+        static DUP: RwLock<Option<Arc<DupFn>>> = RwLock::new(None);
+        static CLOSE: RwLock<Option<Arc<CloseFn>>> = RwLock::new(None);
+
+        /// Replace `dup` (`None` restores the real system call).
+        pub fn set_dup(f: Option<Arc<DupFn>>) {
+            *DUP.write().unwrap_or_else(|e| e.into_inner()) = f;
+        }
+        /// Replace `close` (`None` restores the real system call).
+        pub fn set_close(f: Option<Arc<CloseFn>>) {
+            *CLOSE.write().unwrap_or_else(|e| e.into_inner()) = f;
+        }
+
+        pub fn dup(fd: RawFd) -> Result<RawFd, Errno> {
+            let f = DUP
+                .read()
+                .unwrap_or_else(|e| e.into_inner())
+                .as_ref()
+                .cloned();
+            match f {
+                Some(f) => f(fd),
+                None => ::nix::unistd::dup(fd),
+            }
+        }
+
+        pub fn close(fd: RawFd) -> Result<(), Errno> {
+            let f = CLOSE
+                .read()
+                .unwrap_or_else(|e| e.into_inner())
+                .as_ref()
+                .cloned();
+            match f {
+                Some(f) => f(fd),
+                None => ::nix::unistd::close(fd),
+            }
+        }
+    }
+}
